@@ -3,4 +3,4 @@
 ID="$1"; M="$2"; shift 2
 echo "### $ID $M: $(python3 -c "import json;print(json.load(open('/tmp/out-$ID/$M/meta.json')).get('what_it_breaks','')[:160])" 2>/dev/null)"
 ./confirm_seed.sh $ID $M 2>&1 | tail -4 | tr '\n' ';'; echo
-./seedtest.sh /tmp/out-$ID/$M/patch.diff quick "$@"
+./seedtest_iso.sh /tmp/out-$ID/$M/patch.diff quick "$@"
